@@ -481,6 +481,18 @@ class SSocket:
             self.sched.block(lambda: False, delay, what="send returns late")
         return k
 
+    def sendall(self, data):
+        """like a real socket: everything, or - on a descriptor that cannot take more at the moment - a prefix and then EAGAIN"""
+        d = bytes(data)
+        if self.write_caps and self.to is None:
+            k = self.send(d[:self.write_caps[self.wi % len(self.write_caps)]])
+            if k < len(d):
+                raise BlockingIOError(errno.EAGAIN, "Resource temporarily unavailable")
+            return None
+        while d:
+            d = d[self.send(d):]
+        return None
+
     def shutdown(self, how=None):
         if getattr(self, "reset_seen", False):
             # a TCP socket whose connection was reset by the peer (and that has reported it) is not connected any more
